@@ -81,6 +81,10 @@ def run(pid, tier, seed, cfg):
         cmds = [[x.replace('{n}', str(n)) if n else x for x in c] for c in cfg.get('search', [])]
         w, info = native_search(cmds, seed) if cmds else (None, None)
         kinds = sorted(set(k for p in parts for k in p['kinds']))
+        if w is None and cfg.get('no_witness_undecided'):
+            # the contract pins more than the property states (see the property's assumptions): without a
+            # failing input for the property itself the run is undecided, not an alarm
+            raise Undecided('obligation(s) %s failed, but no failing input for the property itself was found (%s)' % (failed, cfg['no_witness_undecided']))
         if w is None and cfg.get('complete_search'):
             raise Undecided('obligation(s) %s failed but the complete native enumeration finds no failing input' % failed)
         if w is None and cfg.get('kinds') and not any(re.search(cfg['kinds'], k) for k in kinds):
